@@ -110,6 +110,7 @@ func (fv *FnV) doCall(st *State, ins ssa.Instruction, cc *ssa.CallCommon, pos to
 	fv.safety(st, "nil", not(eq(fnv, "nil!ref")), pos)
 	if fv.k != nil {
 		for _, cl := range fv.k.CallAsserts["dynamic"] {
+			fv.hitAtCall(cl)
 			env := fv.contractEnv(st, fv.entry, nil)
 			if li := fv.innermostLoop(); li != nil {
 				env.loop = li
@@ -173,7 +174,16 @@ func (fv *FnV) moduleCall(st *State, callee *ssa.Function, args []ssa.Value, clo
 			"no mutex of this function is held across a call that may lock (self-deadlock)", pos)
 	}
 	if fv.k != nil {
-		for _, cl := range fv.k.CallAsserts[shortCallee(cname)] {
+		var atCall []*Clause
+		site := fv.siteText(pos, "call")
+		for key, list := range fv.k.CallAsserts {
+			if key == shortCallee(cname) || (strings.HasPrefix(key, shortCallee(cname)+":") && strings.Contains(site, strings.TrimPrefix(key, shortCallee(cname)+":"))) {
+				atCall = append(atCall, list...)
+			}
+		}
+		sort.Slice(atCall, func(i, j int) bool { return atCall[i].Label < atCall[j].Label })
+		for _, cl := range atCall {
+			fv.hitAtCall(cl)
 			env := fv.contractEnv(st, fv.entry, nil)
 			if li := fv.innermostLoop(); li != nil {
 				env.loop = li
@@ -751,7 +761,7 @@ func (fv *FnV) doAppend(st *State, cc *ssa.CallCommon, pos token.Pos) (*SV, erro
 			addLen = "(s!len " + t.v.T + ")"
 		}
 	}
-	if fv.k != nil && single != "" {
+	if fv.k != nil {
 		site := fv.siteText(pos, "call")
 		var cls []*Clause
 		for key, list := range fv.k.CallAsserts {
@@ -767,7 +777,14 @@ func (fv *FnV) doAppend(st *State, cc *ssa.CallCommon, pos token.Pos) (*SV, erro
 			if li := fv.innermostLoop(); li != nil {
 				env.loop = li
 			}
-			env.vars["appended"] = CVal{T: single, S: g.sortOf(et), Typ: et}
+			if single == "" {
+				if strings.Contains(cl.Text, "appended") {
+					continue // the clause speaks about the one appended element; this site appends a whole slice
+				}
+			} else {
+				env.vars["appended"] = CVal{T: single, S: g.sortOf(et), Typ: et}
+			}
+			fv.hitAtCall(cl)
 			env.vars["target"] = CVal{T: s, S: sSlice, Typ: cc.Args[0].Type()}
 			t, err := env.evalBool(cl.Text)
 			if err != nil {
@@ -927,4 +944,11 @@ func (fv *FnV) errorChecks(st *State, where string, propagated string, pos token
 		}
 		fv.addPending(st, "X", label, props, goal, "an error returned by "+ec.callee+" is propagated (checked at every return and loop back edge)", ec.pos)
 	}
+}
+
+func (fv *FnV) hitAtCall(cl *Clause) {
+	if fv.atCallHit == nil {
+		fv.atCallHit = map[*Clause]bool{}
+	}
+	fv.atCallHit[cl] = true
 }
